@@ -151,11 +151,23 @@ def pr_enum_or_str(v):
     return fw.ws(v.value if hasattr(v, "value") else v)
 
 
+TYPE_SLIPS = []          # parsed records holding a plain value where the record declares an enum member (reported by fw.finish with the input)
+
+
+def _declared_enum(v, cls_name, source):
+    """a field the record type declares as (Optional) enum member holds a member of THAT class - equality with the member's value is not enough (`is`, `.value`, `str()`,
+    `match` statements and JSON encoders tell them apart)"""
+    import enum
+    if v is not None and not (isinstance(v, enum.Enum) and type(v).__name__ == cls_name) and len(TYPE_SLIPS) < 5:
+        TYPE_SLIPS.append({"declared": cls_name, "held": type(v).__name__ + " " + repr(v)[:60], "input": source if isinstance(source, str) else dump(source) if "dump" in globals() else repr(source)[:400]})
+
+
 def parse_auth_cred(x):
     from webauthn.helpers.parse_authentication_credential_json import parse_authentication_credential_json as f
 
     def pr(c):
         r = c.response
+        _declared_enum(c.authenticator_attachment, "AuthenticatorAttachment", x)
         return " ".join([fw.ws(c.id), fw.wb(c.raw_id), pr_enum_or_str(c.type), fw.wb(r.client_data_json), fw.wb(r.authenticator_data),
                          fw.wb(r.signature), opt(fw.wb, r.user_handle), opt(pr_enum_or_str, c.authenticator_attachment)])
     return outcome(lambda: f(x), pr)
@@ -166,6 +178,9 @@ def parse_reg_cred(x):
 
     def pr(c):
         r = c.response
+        _declared_enum(c.authenticator_attachment, "AuthenticatorAttachment", x)
+        for t_ in (r.transports or []):
+            _declared_enum(t_, "AuthenticatorTransport", x)
         return " ".join([fw.ws(c.id), fw.wb(c.raw_id), pr_enum_or_str(c.type), fw.wb(r.client_data_json), fw.wb(r.attestation_object),
                          opt(lambda l: wlist(pr_enum_or_str, l), r.transports), opt(pr_enum_or_str, c.authenticator_attachment)])
     return outcome(lambda: f(x), pr)
